@@ -362,10 +362,10 @@ Proof.
   - simpl. reflexivity.
 Qed.
 
-Lemma share_nonneg x : 0 <= mi_budget x -> 0 <= share x.
+Lemma share_nonneg x : tcost (mi_inst x) (mi_init x) <= mi_budget x -> 0 <= share x.
 Proof.
   intro H. unfold share. rewrite Qred_correct. unfold Qdiv.
-  apply Qmult_le_0_compat; [exact H|]. apply Qinv_le_0_compat. apply Qnat_nonneg.
+  apply Qmult_le_0_compat; [lra|]. apply Qinv_le_0_compat. apply Qnat_nonneg.
 Qed.
 
 (* the run reported by the iterated variant is one of the runs from equal endowments >= budget/n *)
